@@ -279,6 +279,17 @@ func c16RunScenario(r *vcore.Run, sc c16Scenario, bound int, deadline time.Durat
 		st.body(s)
 	}, func(choices []int32, res vsched.Result) bool {
 		probs := st.verdict(res)
+		if len(probs) > 0 && !strings.HasPrefix(probs[0], "harness|") {
+			// believed only if the same schedule fails again
+			st2 := &c16State{sc: sc}
+			res2 := vsched.Run(choices, false, st2.body)
+			if len(st2.verdict(res2)) == 0 {
+				c := sc
+				c.Schedule = choices
+				r.Violate("sched", "C16/HARNESS-ERROR/violation-not-reproducible", c, "the same schedule gives the same verdict", strings.Join(probs, "; "))
+				return false
+			}
+		}
 		for _, p := range probs {
 			fp, msg, _ := strings.Cut(p, "|")
 			c := sc
